@@ -96,12 +96,13 @@ def confirm(d):
         for f in demos:
             shutil.copy(os.path.join(d, f), os.path.join(pk, "zz_seed_" + f))
         run_re = meta.get("demo_run", ".")
-        rc0, out0 = sh(["go", "test", "-vet=off", "-count=1", "-run", run_re, "./" + demo], cwd=wt)
+        race = ["-race"] if "race" in str(meta.get("demo_flags", "")) else []
+        rc0, out0 = sh(["go", "test"] + race + ["-vet=off", "-count=1", "-run", run_re, "./" + demo], cwd=wt)
         rc, out = sh(["git", "apply", os.path.join(d, "patch.diff")], cwd=wt)
         if rc != 0:
             print("patch does not apply:", out)
             return 2
-        rc1, out1 = sh(["go", "test", "-vet=off", "-count=1", "-run", run_re, "./" + demo], cwd=wt)
+        rc1, out1 = sh(["go", "test"] + race + ["-vet=off", "-count=1", "-run", run_re, "./" + demo], cwd=wt)
         for f in demos:
             os.remove(os.path.join(pk, "zz_seed_" + f))
         rcb, outb = sh("go build ./... && go test -vet=off -count=1 " + meta.get("suite", "./..."), cwd=wt)
